@@ -156,7 +156,9 @@ type GroupGolden struct {
 }
 
 // Bit reports whether row i was confirmed.
-func (g *GroupGolden) Bit(i int) bool { return g != nil && i/8 < len(g.Accepted) && g.Accepted[i/8]&(1<<uint(i%8)) != 0 }
+func (g *GroupGolden) Bit(i int) bool {
+	return g != nil && i/8 < len(g.Accepted) && g.Accepted[i/8]&(1<<uint(i%8)) != 0
+}
 
 // LoadGroups reads testdata/groups_<arch>.tsv.gz: key "fmt/op/group".
 func LoadGroups(a Arch) (map[string]*GroupGolden, error) {
@@ -253,11 +255,13 @@ func modifierFields(fmtName string, a Arch) []string {
 		return []string{"gds"}
 	case "FLAT":
 		if a == GFX90A {
-			return []string{"glc", "slc", "nv", "lds"}
+			return []string{"glc", "slc", "lds"}
 		}
 		return []string{"glc", "slc", "tfe"}
 	case "GLOBAL", "SCRATCH":
-		return []string{"glc", "slc", "nv", "lds"}
+		return []string{"glc", "slc", "lds"}
+	case "VOP3P":
+		return []string{"clamp", "op_sel", "op_sel_hi", "op_sel_hi2", "neg", "neg_hi"}
 	}
 	return nil
 }
@@ -288,6 +292,9 @@ func (r *Row) Expect(d Desc) (*Expected, bool) {
 		if d.Fmt == "SMEM" && o.Field == "offset" {
 			if d.F["imm"] == 1 {
 				class = "imm"
+				if d.Arch == GFX90A {
+					class = "simm" // 21-bit signed byte offset on GFX9
+				}
 			} else {
 				class = "soff"
 			}
@@ -331,6 +338,9 @@ func (r *Row) Expect(d Desc) (*Expected, bool) {
 			}
 			e.Ops = append(e.Ops, x)
 			continue
+		}
+		if d.Fmt == "FLAT" && d.Arch == GFX90A && o.Field == "offset" && v > 4095 {
+			return nil, false // FLAT segment: 12-bit unsigned offset (llvm-mc's assembler rejects more)
 		}
 		if class == "simm" { // signed immediate of the field's width
 			f, _ := l.Field(o.Field)
